@@ -217,6 +217,25 @@ func runC16(cx *CheckCtx) {
 				cx.violated("migration-writes", skey, "the update path of "+cn+"._deploy performs "+effectDesc(a, s)+" which is not a documented migration step: an upgrade changes data the read API exposes", s.Where(w))
 				continue
 			}
+			// exhaustive gate: the step is gone round (in the root frame) only when the stored
+			// version is already ≥ the version that introduced the layout; item selection inside
+			// a migration loop is not a skip of the step
+			if row.below > 0 {
+				if blk := frameBlock(s, a.tb.root); blk != nil {
+					target := blk
+					if ls := enclosingLoops(blk); len(ls) > 0 {
+						target = ls[len(ls)-1]
+					}
+					okX, whyX := true, ""
+					for _, sk := range a.skipEdges(a.tb.root, target, nil) {
+						if !a.holdsAt(sk.St, -a.litLtC(vT, row.below)) {
+							okX = false
+							whyX = blockPos(w, sk.From)
+						}
+					}
+					cx.decide(okX, "migration-gate", skey, fmt.Sprintf("runs for every stored version < %d", row.below), fmt.Sprintf("the migration step %s can be skipped (at %s) for a stored version < %d: data of the old layout survives the upgrade and becomes invisible to the new code", effectDesc(a, s), whyX, row.below), s.Where(w))
+				}
+			}
 			okG := row.below == 0 || a.holdsAt(s.In, a.litLtC(vT, row.below))
 			cx.decide(okG, "migration-writes", skey, fmt.Sprintf("documented migration step (guard v < %d)", row.below), fmt.Sprintf("the migration step %s runs without its version guard v < %d: it is re-applied to already migrated data", effectDesc(a, s), row.below), s.Where(w))
 		}
